@@ -18,6 +18,7 @@ type Features struct {
 	Shuffle    bool // shuffle top-level definitions
 	Atomics    bool // cmpxchg / atomicrmw / fence
 	FreezeMD   bool // metadata attachments on freeze (the llir/ll grammar rejects them: open finding)
+	AllocaAS   bool // alloca in a non-default address space (LLVM 14 cannot read its own bitcode for those back: only for checks that do not need LLVM's canonical form)
 	MaxFuncs   int
 	MaxInsts   int
 }
